@@ -78,6 +78,8 @@ const (
 	OpResAdd      = "resAdd"       // Resources.Add
 	OpResRemove   = "resRemove"    // Resources.Remove
 	OpDumpLoad    = "dumpLoad"     // DumpEntities + LoadEntities (C17 drives this itself)
+	OpDumpSave    = "dumpSave"     // DumpEntities, kept for a later dumpRestore
+	OpDumpRestore = "dumpRestore"  // Reset + LoadEntities of the kept dump: back to the dump-time entity state
 	OpDeadRead    = "deadRead"     // read accessor with a dead handle (V selects it): must panic
 	OpCacheIll    = "cacheIll"     // V=0 register a registered filter, V=1 unregister twice
 	OpTypeLimit   = "typeLimit"    // register component types up to the limit, then one more
@@ -120,7 +122,7 @@ func (o *Op) Describe() string {
 		}
 	case OpAddListener:
 		s += fmt.Sprintf("(world %d types %06b comps %v restricted=%v kind=%d)", o.Slot, o.V, o.Add, o.Vals, o.N)
-	case OpReset, OpGC, OpDumpLoad, OpTypeLimit, OpRegisterNew, OpLoadEnts:
+	case OpReset, OpGC, OpDumpLoad, OpTypeLimit, OpRegisterNew, OpLoadEnts, OpDumpSave, OpDumpRestore, OpLockedRegistration:
 	case OpResAdd, OpResRemove:
 		s += fmt.Sprintf("(res %d)", o.C)
 	case OpDeadRead, OpCacheIll:
